@@ -1,7 +1,8 @@
 """C05 - nogood-learning search exact and terminating for every heuristic; see DESIGN.md section 5"""
 from . import semprops, semjobs
 PROCS = ['nogood:Simple', 'nogood:MinModMinPathsMaxVarImp', 'nogood:MinModMaxVarImpMinPaths', 'nogood:Rand', 'nogood:Custom',
-         'nogood_channel:Simple', 'twoval_channel:Simple', 'twoval_channel:Custom']
+         'nogood_channel:Simple', 'twoval_channel:Simple', 'twoval_channel:Custom',
+         'hyb/nogood:MinModMinPathsMaxVarImp', 'hyb/twoval_channel:Simple']        # the search on a bridged Adf (what the CLI's default mode runs)
 XP = {'nogood:Rand': {'max_draws': 40, 'skip_n4': True, 'branching': 3}, 'nogood:Custom': {'max_custom_calls': 20, 'skip_n4': True, 'branching': 3},
       'twoval_channel:Custom': {'max_custom_calls': 20, 'skip_n4': True, 'branching': 2}}
 spec0, validate = semprops.make(PROCS, 'nogood:Simple', extra_params=XP, backend_kinds=('stable_nogood', 'models_nogood'))
